@@ -274,4 +274,76 @@ def unsealOK (rawLen : Nat) (obs : Out (List UInt8)) : Option String :=
   | .err => none
   | .val p => if rawLen ≥ 16 && p.length + 16 == rawLen then none else some "decrypt-invented-bytes"
 
+/-! ## JSON wrapper methods of the claims types: both-set-and-different values and multi-step sequences
+     (decode -> modify registered fields -> encode).  `registered` is what encoding/json writes for the value's exported
+     fields through a method-less copy of the type (struct tags only) BEFORE the call, `custom` the custom-claims map
+     before the call, `observed` the document the type's own MarshalJSON produced. -/
+
+/-- IntrospectionResponse: `username` (RFC 7662) may be filled from `preferred_username` - only when it is not set -/
+def withUsernameFallback (registered : Codec.Obj) : Codec.Obj :=
+  if (keys registered).contains "username" then registered else
+  match lookup registered "preferred_username" with
+  | some p => registered ++ [("username", p)]
+  | none => registered
+
+def introMarshalOK (registered custom observed : Codec.Obj) : Option String :=
+  match marshalOK registered custom observed with
+  | none => none
+  | some _ => marshalOK (withUsernameFallback registered) custom observed
+
+/-- encoding does not change a registered field of the receiver that is set (`user` / `pref`: Username and PreferredUsername
+    before the call, `userAfter`: Username afterwards) -/
+def introRecvOK (user pref userAfter : String) : Option String :=
+  if userAfter == user || (user == "" && userAfter == pref) then none else some "registered-field-changed-by-encoding"
+
+/-- encoding does not lose a custom claim from the receiver (JWTTokenRequest keeps the merged members in its private map):
+    every custom claim that does not collide with a registered name is still there, unchanged -/
+def customKeptOK (registered customBefore customAfter : Codec.Obj) : Option String :=
+  if (keys customBefore).all (fun k => (keys registered).contains k || lookup customAfter k == lookup customBefore k) then none
+  else some "custom-claim-lost-from-receiver"
+
+/-- a JSON text that is the zero value of its Go type (dropped by `omitempty`, or what an absent member leaves) -/
+def zeroText (t : String) : Bool := t == "\"\"" || t == "0" || t == "null" || t == "false" || t == "[]" || t == "{}"
+
+/-- decoding a document whose registered members are in canonical form (`names`: the registered JSON names of the type):
+    every member arrives - registered ones in the typed fields (`registered2`, the exported fields encoded again), all of
+    them in the custom map - and nothing arrives that the document did not contain -/
+def decodeOK (names : List String) (doc registered2 custom2 : Codec.Obj) : Option String :=
+  if !(keys doc).all (fun k => !names.contains k || lookup registered2 k == lookup doc k || (lookup doc k).all zeroText) then some "registered-member-not-decoded"
+  else if !(keys registered2).all (fun k => lookup registered2 k == lookup doc k || (lookup registered2 k).all zeroText) then some "decoded-value-not-in-document"
+  else if !(keys doc).all (fun k => lookup custom2 k == lookup doc k) then some "member-missing-from-custom-claims"
+  else if !(keys custom2).all (fun k => (keys doc).contains k) then some "custom-claim-invented"
+  else none
+
+/-- … into a value that is already in use (its fields and its custom map keep what the document does not mention): every member
+    of the document arrives -/
+def redecodeOK (names : List String) (doc registered2 custom2 : Codec.Obj) : Option String :=
+  if !(keys doc).all (fun k => !names.contains k || lookup registered2 k == lookup doc k || (lookup doc k).all zeroText) then some "registered-member-not-decoded"
+  else if !(keys doc).all (fun k => lookup custom2 k == lookup doc k) then some "member-missing-from-custom-claims"
+  else none
+
+/-- one encode step of a history, any of the eight types (`intro`: the type is IntrospectionResponse, with its Username /
+    PreferredUsername before the call and its Username afterwards) -/
+def encodeStepOK (intro : Bool) (registered custom observed customAfter : Codec.Obj) (user pref userAfter : String) : Option String :=
+  match (if intro then introMarshalOK registered custom observed else marshalOK registered custom observed) with
+  | some c => some c
+  | none =>
+    match customKeptOK registered custom customAfter with
+    | some c => some c
+    | none => if intro then introRecvOK user pref userAfter else none
+
+/-- one decode step: `intro` = the type is IntrospectionResponse (whose encoder may have filled `username`); `ok` = the decoder accepted the document; `rt` = the document is the output of the preceding encode step of
+    the value (`srcReg`, `srcCustom`: registered encoding and custom map before THAT step), `collide` = one of those custom
+    claims took the place of an unset registered member (only then may the typed fields refuse the document) -/
+def decodeStepOK (intro ok fresh rt collide : Bool) (names : List String) (doc registered2 custom2 srcReg srcCustom : Codec.Obj) : Option String :=
+  if !ok then (if rt && collide then none else some (if rt then "roundtrip-refused" else "canonical-document-refused")) else
+  match (if fresh then decodeOK names doc registered2 custom2 else redecodeOK names doc registered2 custom2) with
+  | some c => if rt && collide && c == "registered-member-not-decoded" then none else some c
+  | none =>
+    if rt && fresh then
+      match roundTripOK srcReg srcCustom registered2 custom2 with
+      | none => none
+      | some c => if intro then roundTripOK (withUsernameFallback srcReg) srcCustom registered2 custom2 else some c
+    else none
+
 end C12
